@@ -155,7 +155,7 @@ def run(ctx, model=None):
     for k in range(12 if ctx.quick() else 200):
         check_case(ctx, gen.tiny_reach_game(rng), model)
         check_case(ctx, gen.parallel_dead_game(rng), model)
-    N = 300 if ctx.quick() else 8000
+    N = 300 if ctx.quick() else 30000
     for k in range(N):
         g = gen.slow_cycle_game(rng) if k % 9 == 0 else gen.layered_tie_game(rng) if k % 2 == 0 else \
             gen.stopping_game(rng, reward_max=rng.choice([4, 7, 11]))
